@@ -7,6 +7,40 @@ use super::ply::castling::CastlingRights;
 use super::*;
 use std::collections::HashSet;
 
+/// The record of earlier positions has been a HashSet and a Vec in different versions of the crate.
+pub trait RcePh {
+    fn rce_new() -> Self;
+    fn rce_add(&mut self, k: ZKey);
+    fn rce_keys(&self) -> Vec<u64>;
+}
+impl RcePh for HashSet<ZKey> {
+    fn rce_new() -> Self {
+        HashSet::new()
+    }
+    fn rce_add(&mut self, k: ZKey) {
+        self.insert(k);
+    }
+    fn rce_keys(&self) -> Vec<u64> {
+        let mut v: Vec<u64> = self.iter().map(|k| zkey_val(*k)).collect();
+        v.sort_unstable();
+        v
+    }
+}
+impl RcePh for Vec<ZKey> {
+    fn rce_new() -> Self {
+        Vec::new()
+    }
+    fn rce_add(&mut self, k: ZKey) {
+        self.push(k);
+    }
+    fn rce_keys(&self) -> Vec<u64> {
+        self.iter().map(|k| zkey_val(*k)).collect()
+    }
+}
+fn ph_new<T: RcePh>() -> T {
+    T::rce_new()
+}
+
 pub struct Tok<'a> {
     it: std::slice::Iter<'a, String>,
 }
@@ -108,9 +142,9 @@ pub fn read_board(t: &mut Tok) -> Board {
         history.push(read_ply(t));
     }
     let np = t.i();
-    let mut position_history = HashSet::new();
+    let mut position_history = ph_new();
     for _ in 0..np {
-        position_history.insert(zkey_of(t.u()));
+        RcePh::rce_add(&mut position_history, zkey_of(t.u()));
     }
     let mut b = [0u64; 15];
     for x in b.iter_mut() {
@@ -189,8 +223,7 @@ pub fn board_str(b: &Board) -> String {
         s += &ply_str(p);
         s += " ";
     }
-    let mut keys: Vec<u64> = b.position_history.iter().map(|k| zkey_val(*k)).collect();
-    keys.sort_unstable();
+    let keys: Vec<u64> = RcePh::rce_keys(&b.position_history);
     s += &format!("{} ", keys.len());
     for k in keys {
         s += &format!("{k} ");
